@@ -193,7 +193,7 @@ func TestVerifC13Compiler(t *testing.T) {
 	r := vNewRand(vSeed() + 1313)
 	n, maxLen := 1200, 4
 	if vTier() == "thorough" {
-		n, maxLen = 40000, 5
+		n, maxLen = 8000, 5
 	}
 	var words [][]int
 	prev := [][]int{{}}
